@@ -28,7 +28,8 @@ THEOREMS = ['C10_handler_words_balanced', 'C10_handler_words_balanced_sound', 'C
             'C10_overflow_trace_exceeds_limit', 'C10_tracelen_nonvacuous',
             'C10_limit_monotone', 'C10_limit_monotone_outcome', 'C10_depth_never_exceeds',
             'C10_top_depth_never_exceeds', 'C10_force_in_progress', 'C10_cycle_detected',
-            'C10_depthsem_nonvacuous']
+            'C10_depthsem_nonvacuous',
+            'C10_refeval_limit_monotone']
 ALLOWED_AXIOMS = set()
 GAIN_BOUND = 16          # = handler_gain_bound in Props/C10.v
 BIG = 4096               # "no limit" for the model (generated programs that terminate stay far below)
